@@ -49,8 +49,9 @@ THEOREMS = [
     "Measured.C08.factor_order_witness",
     "Measured.C08.declared_pair_is_found", "Measured.C08.once_declared_it_converts", "Measured.equate_declares",
     "Measured.C08.simple_conversion_history_free", "Measured.steps_spec",
+    "Measured.findPath_flat", "Measured.flat_conversion_state_free",
 ]
-LEAN_TARGETS = ["Props.C08", "Props.C08Planner", "Props.C08Declared", "Obligations.C08"]
+LEAN_TARGETS = ["Props.C08", "Props.C08Planner", "Props.C08Declared", "Proofs.Flat", "Obligations.C08"]
 QUICK = {"chunks": 4, "ops": 500}
 THOROUGH = {"chunks": 16, "ops": 3000}
 RULE = ("histories of 15-40 actions over 3-5 freshly defined base units and shipped units; non-trivial = a query whose "
